@@ -462,7 +462,34 @@ def r16i(ctx):
                       loc=ctx.loc(owner.module, fn))
 
 
+def r16j(ctx):
+    """`equals the declared indices above and below the valid range` for a layered stack: whatever LayeredIce.index looks like, it can only
+    return the declared outer indices if it reads them.  A necessary condition that does not depend on the shape of the function: `index`
+    (with the methods of the class it calls on self) reads both self.index_above and self.index_below."""
+    repo = ctx.repo
+    ctx.rule("R16j", "LayeredIce.index reads the stack's declared index_above and index_below (itself or through a method it calls on self)", expected=2, kind="N")
+    ci = repo.cls(LAY)
+    seen, todo, reads = set(), ["index"], set()
+    while todo:
+        m = todo.pop()
+        if m in seen or m not in ci.methods:
+            continue
+        seen.add(m)
+        fn = ci.methods[m][1]
+        for n in ast.walk(fn):
+            if isinstance(n, ast.Attribute) and isinstance(n.value, ast.Name) and n.value.id == "self":
+                if isinstance(n.ctx, ast.Load) and n.attr in ("index_above", "index_below"):
+                    reads.add(n.attr)
+                if n.attr in ci.methods and n.attr not in seen and ci.methods[n.attr][0] not in ("property",) or (n.attr in ci.methods and isinstance(parent(n), ast.Call)):
+                    todo.append(n.attr)
+    ctx.analysed["LayeredIce.index reaches"] = sorted(seen)
+    for a_ in ("index_above", "index_below"):
+        ctx.check(a_ in reads, "R16j", f"{LAY}.index", f"self.{a_} is read on the way to the result", f"not read by {sorted(seen)}", key_detail=f"reads {a_}",
+                  loc=ctx.loc(LAY.rsplit(".", 1)[0], ci.methods["index"][1]), pointed=True)
+
+
 def run(ctx):
+    ctx.guard(r16j)
     ctx.guard(r16i)
     ctx.guard(r16a)
     ctx.guard(r16b)
@@ -476,6 +503,8 @@ def run(ctx):
 
 SELFTEST = {
     "faults": [
+        {"name": "depths above the stack handed to the top layer instead of index_above", "file": "pyrex/custom/layered_ice/ice_model.py",
+         "old": "                    n = self.index_above", "new": "                    n = self.layers[0].index(depth)", "rule": "R16j"},
         {"name": "one-element frequency array turned into a scalar", "file": "pyrex/ice_model.py", "old": "        with np.errstate(divide='ignore'):\n            # w is log of frequency in GHz",
          "new": "        if isinstance(f, np.ndarray) and f.size==1:\n            f = f.item()\n        with np.errstate(divide='ignore'):\n            # w is log of frequency in GHz", "rule": "R16i"},
         {"name": "whole-array fast path with a closed containment test", "file": "pyrex/custom/layered_ice/ice_model.py", "old": "            single_value = False\n\n        indices = []\n",
